@@ -13,7 +13,7 @@ Proof. solve_decision. Defined.
 
 (* nodes captured (as Incr clones) by a bind closure: the outer operands of its templates *)
 Fixpoint captured_tinstr (t : tinstr) : list nid :=
-  let co (o : operand) : list nid := match o with OOuter n => [n] | OLocal _ _ => [] end in
+  let co (o : operand) : list nid := match o with OOuter n => [n] | _ => [] end in
   match t with
   | TConst _ | TConstLhs => []
   | TMap _ _ args => concat (co <$> args)
@@ -33,7 +33,7 @@ with captured_bindfn (f : bindfn) : list nid :=
          | (body, r) :: ts' =>
              (fix gob (b : list tinstr) : list nid :=
                 match b with [] => [] | t :: b' => captured_tinstr t ++ gob b' end) body
-             ++ match r with OOuter n => [n] | OLocal _ _ => [] end
+             ++ match r with OOuter n => [n] | _ => [] end
              ++ go ts'
          end) ts
   end.
